@@ -17,6 +17,9 @@
 //!  password is such a password cut before that character), `-nonlatin` (the wrong password differs from a real one only by
 //!  characters PDFDocEncoding cannot represent, revisions 2-4), `stream-dict-string-encrypted` (ISO: strings in stream
 //!  dictionaries are strings of the file; F19), `metadata-dict-string-encrypted` (only the Metadata *stream* is exempt).
+//!  `precondition-file-loads` (a document of provenance file:<layout> could not be set up: the file written here did not load, or not
+//!  with the objects written - the reader's matter, reported so that the case does not pass vacuously), `mem-compressed-objstm-restored`
+//!  (in memory round trip returned a Flate-compressed /Type /ObjStm stream decoded: same data, other bytes; one name whatever the password).
 //!  Panics are caught per call (`catch`, with a silent hook installed once for the whole run because cases run on rayon
 //!  threads) and reported as `no-panic`.
 //!
@@ -93,10 +96,13 @@ struct DocS {
     has_id: bool,
     slack: u32,
     reload: bool,
+    /// where the `Document` comes from: "built" (objects inserted into a fresh `Document`) or "file:<layout>" (a PDF 1.5 file with
+    /// these objects is written by `write_file` and loaded with `Document::load_mem`; the loaded document is the original)
+    origin: String,
 }
 
 fn doc_json(d: &DocS) -> Value {
-    json!({"label": d.label, "has_id": d.has_id, "slack": d.slack, "reload": d.reload,
+    json!({"label": d.label, "has_id": d.has_id, "slack": d.slack, "reload": d.reload, "origin": d.origin,
            "objects": d.objects.iter().map(|(id, o)| json!({"id": id.0, "gen": id.1, "obj": obj_json(o)})).collect::<Vec<_>>()})
 }
 
@@ -108,10 +114,15 @@ fn doc_from_json(v: &Value) -> DocS {
         has_id: v["has_id"].as_bool().unwrap_or(true),
         slack: v["slack"].as_u64().unwrap_or(0) as u32,
         reload: v["reload"].as_bool().unwrap_or(true),
+        origin: v["origin"].as_str().unwrap_or("built").into(),
     }
 }
 
-fn build_doc(s: &DocS) -> Document {
+const ID0: &[u8] = b"\x00\x01\x02\xfd\xfe\xff(id-0)\r\n\\";
+const ID1: &[u8] = b"second-id-16byte";
+
+fn build_doc(s: &DocS) -> Result<Document, String> {
+    if let Some(layout) = s.origin.strip_prefix("file:") { return load_file_doc(s, layout); }
     let mut d = Document::with_version("1.7");
     let mut maxid = 0;
     for (id, o) in &s.objects {
@@ -122,9 +133,207 @@ fn build_doc(s: &DocS) -> Document {
     if let Some((id, _)) = s.objects.first() { d.trailer.set("Root", Object::Reference(*id)); }
     if let Some((id, _)) = s.objects.get(1) { d.trailer.set("Info", Object::Reference(*id)); }
     if s.has_id {
-        d.trailer.set("ID", Object::Array(vec![hexs(b"\x00\x01\x02\xfd\xfe\xff(id-0)\r\n\\"), hexs(b"second-id-16byte")]));
+        d.trailer.set("ID", Object::Array(vec![hexs(ID0), hexs(ID1)]));
     }
-    d
+    Ok(d)
+}
+
+// ---------------------------------------------------------------------------------------------------------------
+// documents that come from a file (the provenance dimension)
+// ---------------------------------------------------------------------------------------------------------------
+//
+// "Every document" includes the documents a program gets from `Document::load*`, not only the ones it builds object by object.
+// A document loaded from a PDF 1.5+ file differs from a built one in state the property does not mention but the library keeps:
+// the cross-reference stream and the object streams of the file stay in `objects` (as streams of /Type /XRef and /Type /ObjStm)
+// next to the objects unpacked from them, `reference_table` has compressed entries, the trailer carries the keys of the
+// cross-reference stream dictionary.  The file is written here (ISO 32000 7.5: body, 7.5.4 table, 7.5.7 object streams, 7.5.8
+// cross-reference streams) independently of lopdf's writer; the ORIGINAL of the round trip is whatever `load_mem` made of it.
+
+/// layouts of the file: classic cross-reference table; cross-reference stream; cross-reference stream + one object stream that holds
+/// every object that may be compressed (ISO 7.5.7: not a stream, generation 0), stored or Flate-compressed; the same spread over two
+/// object streams (alternating)
+const LAYOUTS: &[&str] = &["table", "xrefstm", "objstm", "objstm-flate", "objstm-x2"];
+
+fn ser_name(n: &[u8], out: &mut Vec<u8>) {
+    out.push(b'/');
+    for &b in n {
+        if (b'!'..=b'~').contains(&b) && !b"()<>[]{}/%#".contains(&b) { out.push(b); } else { out.extend_from_slice(format!("#{:02X}", b).as_bytes()); }
+    }
+}
+
+fn ser_dict(d: &Dictionary, length: Option<usize>, out: &mut Vec<u8>) {
+    out.extend_from_slice(b"<<");
+    for (k, v) in d.iter() {
+        if length.is_some() && k.as_slice() == b"Length" { continue; }
+        ser_name(k, out);
+        out.push(b' ');
+        ser(v, out);
+    }
+    if let Some(n) = length { out.extend_from_slice(format!("/Length {}", n).as_bytes()); }
+    out.extend_from_slice(b">>");
+}
+
+/// ISO 32000 7.3 syntax of one object (strings keep their format; every byte of a literal string outside printable ASCII, and ( ) \, is escaped)
+fn ser(o: &Object, out: &mut Vec<u8>) {
+    match o {
+        Object::Null => out.extend_from_slice(b"null"),
+        Object::Boolean(b) => out.extend_from_slice(if *b { b"true" } else { b"false" }),
+        Object::Integer(i) => out.extend_from_slice(i.to_string().as_bytes()),
+        Object::Real(r) => out.extend_from_slice(format!("{}", r).as_bytes()),
+        Object::Name(n) => ser_name(n, out),
+        Object::String(b, StringFormat::Hexadecimal) => { out.push(b'<'); out.extend_from_slice(hex(b).as_bytes()); out.push(b'>'); }
+        Object::String(b, StringFormat::Literal) => {
+            out.push(b'(');
+            for &c in b { if (0x20..=0x7e).contains(&c) && !b"()\\".contains(&c) { out.push(c); } else { out.extend_from_slice(format!("\\{:03o}", c).as_bytes()); } }
+            out.push(b')');
+        }
+        Object::Array(a) => {
+            out.push(b'[');
+            for (i, x) in a.iter().enumerate() { if i > 0 { out.push(b' '); } ser(x, out); }
+            out.push(b']');
+        }
+        Object::Dictionary(d) => ser_dict(d, None, out),
+        Object::Stream(s) => {
+            ser_dict(&s.dict, Some(s.content.len()), out);
+            out.extend_from_slice(b"stream\n");
+            out.extend_from_slice(&s.content);
+            out.extend_from_slice(b"\nendstream");
+        }
+        Object::Reference(id) => out.extend_from_slice(format!("{} {} R", id.0, id.1).as_bytes()),
+    }
+}
+
+fn zlib(data: &[u8]) -> Vec<u8> {
+    use std::io::Write;
+    let mut e = flate2::write::ZlibEncoder::new(Vec::new(), flate2::Compression::default());
+    e.write_all(data).unwrap();
+    e.finish().unwrap()
+}
+
+#[derive(Clone, Copy)]
+enum XEntry { Normal(usize, u16), Compressed(u32, usize) }
+
+/// maximal runs of consecutive object numbers, for the subsections of a table / the /Index of a cross-reference stream
+fn runs(ids: &[u32]) -> Vec<(u32, usize)> {
+    let mut out: Vec<(u32, usize)> = vec![];
+    for &i in ids {
+        match out.last_mut() { Some((s, n)) if *s + *n as u32 == i => *n += 1, _ => out.push((i, 1)) }
+    }
+    out
+}
+
+/// The PDF 1.5 file with the objects of `s` in the given layout.  Object streams get the numbers after the highest object number,
+/// the cross-reference stream the one after those; /Size is the highest number + 1 (`slack` does not apply to a file); /Root, /Info and
+/// /ID as in `build_doc`.
+fn write_file(s: &DocS, layout: &str) -> Vec<u8> {
+    let n_cont: usize = match layout { "objstm" | "objstm-flate" => 1, "objstm-x2" => 2, _ => 0 };
+    let flate = layout == "objstm-flate";
+    let xref_stream = layout != "table";
+    let maxid = s.objects.iter().map(|x| x.0 .0).max().unwrap_or(0);
+    let mut packed: Vec<Vec<(u32, &Object)>> = vec![vec![]; n_cont];
+    let mut entries: BTreeMap<u32, XEntry> = BTreeMap::new();
+    let mut out: Vec<u8> = b"%PDF-1.5\n%\xe2\xe3\xcf\xd3\n".to_vec();
+    let mut k = 0;
+    for (id, o) in &s.objects {
+        if n_cont > 0 && id.1 == 0 && !matches!(o, Object::Stream(_)) {
+            let c = k % n_cont;
+            entries.insert(id.0, XEntry::Compressed(maxid + 1 + c as u32, packed[c].len()));
+            packed[c].push((id.0, o));
+            k += 1;
+        } else {
+            entries.insert(id.0, XEntry::Normal(out.len(), id.1));
+            out.extend_from_slice(format!("{} {} obj\n", id.0, id.1).as_bytes());
+            ser(o, &mut out);
+            out.extend_from_slice(b"\nendobj\n");
+        }
+    }
+    for (c, objs) in packed.iter().enumerate() {
+        let mut index = String::new();
+        let mut body: Vec<u8> = vec![];
+        for (n, o) in objs {
+            index.push_str(&format!("{} {} ", n, body.len()));
+            ser(o, &mut body);
+            body.push(b' ');
+        }
+        let mut content = index.clone().into_bytes();
+        content.extend_from_slice(&body);
+        let mut d = dict(vec![(b"Type", name(b"ObjStm")), (b"N", Object::Integer(objs.len() as i64)), (b"First", Object::Integer(index.len() as i64))]);
+        if flate { content = zlib(&content); d.set("Filter", name(b"FlateDecode")); }
+        let id = maxid + 1 + c as u32;
+        entries.insert(id, XEntry::Normal(out.len(), 0));
+        out.extend_from_slice(format!("{} 0 obj\n", id).as_bytes());
+        ser(&Object::Stream(Stream::new(d, content)), &mut out);
+        out.extend_from_slice(b"\nendobj\n");
+    }
+    let mut trailer = Dictionary::new();
+    if let Some((id, _)) = s.objects.first() { trailer.set("Root", Object::Reference(*id)); }
+    if let Some((id, _)) = s.objects.get(1) { trailer.set("Info", Object::Reference(*id)); }
+    if s.has_id { trailer.set("ID", Object::Array(vec![hexs(ID0), hexs(ID1)])); }
+    let startxref = out.len();
+    if xref_stream {
+        let xid = maxid + 1 + n_cont as u32;
+        entries.insert(xid, XEntry::Normal(startxref, 0));
+        let mut ids: Vec<u32> = vec![0];
+        ids.extend(entries.keys().copied());
+        let mut content: Vec<u8> = vec![];
+        let mut put = |t: u8, a: u32, b: u16| { content.push(t); content.extend_from_slice(&a.to_be_bytes()); content.extend_from_slice(&b.to_be_bytes()); };
+        put(0, 0, 65535);
+        for e in entries.values() {
+            match *e { XEntry::Normal(off, gen) => put(1, off as u32, gen), XEntry::Compressed(cont, idx) => put(2, cont, idx as u16) }
+        }
+        trailer.set("Type", name(b"XRef"));
+        trailer.set("Size", Object::Integer(xid as i64 + 1));
+        trailer.set("W", Object::Array(vec![Object::Integer(1), Object::Integer(4), Object::Integer(2)]));
+        trailer.set("Index", Object::Array(runs(&ids).into_iter().flat_map(|(a, n)| [Object::Integer(a as i64), Object::Integer(n as i64)]).collect()));
+        out.extend_from_slice(format!("{} 0 obj\n", xid).as_bytes());
+        ser(&Object::Stream(Stream::new(trailer, content)), &mut out);
+        out.extend_from_slice(b"\nendobj\n");
+    } else {
+        let mut ids: Vec<u32> = vec![0];
+        ids.extend(entries.keys().copied());
+        out.extend_from_slice(b"xref\n");
+        for (start, n) in runs(&ids) {
+            out.extend_from_slice(format!("{} {}\n", start, n).as_bytes());
+            for i in start..start + n as u32 {
+                match entries.get(&i) {
+                    Some(XEntry::Normal(off, gen)) => out.extend_from_slice(format!("{:010} {:05} n \n", off, gen).as_bytes()),
+                    _ => out.extend_from_slice(b"0000000000 65535 f \n"),
+                }
+            }
+        }
+        trailer.set("Size", Object::Integer(maxid as i64 + 1));
+        out.extend_from_slice(b"trailer\n");
+        ser_dict(&trailer, None, &mut out);
+        out.push(b'\n');
+    }
+    out.extend_from_slice(format!("startxref\n{}\n%%EOF\n", startxref).as_bytes());
+    out
+}
+
+/// Load the file of `s`.  Precondition of the round-trip clauses (reported as `precondition-file-loads`, a matter of the reader and not
+/// of C05, so that a case cannot pass vacuously): the loaded document holds every object of `s` (value equality; objects typed as
+/// file structure - ObjStm, XRef, Linearized - are the reader's to interpret and not compared), is not encrypted, and apart from
+/// those holds only the file-structure streams written by `write_file`.
+fn load_file_doc(s: &DocS, layout: &str) -> Result<Document, String> {
+    if !LAYOUTS.contains(&layout) { return Err(format!("unknown file layout {:?}", layout)); }
+    let bytes = write_file(s, layout);
+    let d = match catch(|| Document::load_mem(&bytes)) {
+        Err(p) => return Err(format!("load_mem of the {} file panicked: {}", layout, p)),
+        Ok(Err(e)) => return Err(format!("load_mem of the {} file failed: {}", layout, e)),
+        Ok(Ok(d)) => d,
+    };
+    if d.trailer.get(b"Encrypt").is_ok() { return Err("the loaded document claims to be encrypted".into()); }
+    for (id, o) in &s.objects {
+        if is_bookkeeping_object(o) { continue; }
+        match d.objects.get(id) {
+            None => return Err(format!("{} file: object {} {} is not in the loaded document", layout, id.0, id.1)),
+            Some(l) => if !obj_eq(o, l) { return Err(format!("{} file: object {} {} was loaded as {:?}", layout, id.0, id.1, l)); },
+        }
+    }
+    for (id, o) in &d.objects {
+        if !is_bookkeeping_object(o) && !s.objects.iter().any(|x| x.0 == *id) { return Err(format!("{} file: the loaded document has an object {} {} that is not in the file: {:?}", layout, id.0, id.1, o)); }
+    }
+    Ok(d)
 }
 
 fn pat(n: usize, seed: u8) -> Vec<u8> { (0..n).map(|i| (i as u8).wrapping_mul(37).wrapping_add(seed)).collect() }
@@ -138,6 +347,20 @@ fn crypt_stream(name: Option<&str>, parms: bool, array_form: bool, content: Vec<
         if let Some(n) = name { p.set("Name", crate::gen::name(n.as_bytes())); }
         d.set("DecodeParms", Object::Dictionary(p));
     }
+    Object::Stream(Stream::new(d, content))
+}
+
+/// a well-formed object stream (ISO 7.5.7) with a dictionary and an array that hold strings; the numbers 11 and 12 are not objects of any document here
+fn objstm_stream(flate: bool) -> Object {
+    let o1: &[u8] = b"<</Title(a title inside an object stream)/K[(x)]>>";
+    let o2: &[u8] = b"[(first string in an array)(second string)]";
+    let index = format!("11 0 12 {} ", o1.len() + 1);
+    let mut content = index.clone().into_bytes();
+    content.extend_from_slice(o1);
+    content.push(b' ');
+    content.extend_from_slice(o2);
+    let mut d = dict(vec![(b"Type", name(b"ObjStm")), (b"N", Object::Integer(2)), (b"First", Object::Integer(index.len() as i64))]);
+    if flate { content = zlib(&content); d.set("Filter", name(b"FlateDecode")); }
     Object::Stream(Stream::new(d, content))
 }
 
@@ -174,6 +397,13 @@ fn alphabet(h: &Handler) -> Vec<(String, Object)> {
         ("array-with-metadata-typed-dict".into(), Object::Array(vec![
             Object::Dictionary(dict(vec![(b"Type", name(b"Metadata")), (b"X", lit(b"nested in a /Metadata dict"))])), lit(b"sibling string 20 bt")])),
         ("xref-typed-stream".into(), Object::Stream(Stream::new(dict(vec![(b"Type", name(b"XRef"))]), pat(20, 77)))),
+        // streams and dictionaries typed as file structure (ISO 7.5.7: an object stream is encrypted as a stream like any other; only
+        // the cross-reference stream is exempt): what a document loaded from a PDF 1.5 file keeps in `objects`
+        ("objstm-2-objects".into(), objstm_stream(false)),
+        ("objstm-2-objects-flate".into(), objstm_stream(true)),
+        ("objstm-empty".into(), Object::Stream(Stream::new(dict(vec![(b"Type", name(b"ObjStm")), (b"N", Object::Integer(0)), (b"First", Object::Integer(0))]), vec![]))),
+        ("objstm-typed-binary".into(), Object::Stream(Stream::new(dict(vec![(b"Type", name(b"ObjStm"))]), pat(40, 123)))),
+        ("linearized-dict-with-string".into(), Object::Dictionary(dict(vec![(b"Linearized", Object::Integer(1)), (b"L", Object::Integer(1234)), (b"X", lit(b"a string in a /Linearized dict"))]))),
         ("crypt-no-name".into(), crypt_stream(None, true, false, pat(32, 1))),
         ("crypt-unknown-name".into(), crypt_stream(Some("Nope"), true, true, pat(32, 2))),
         ("crypt-no-parms".into(), crypt_stream(None, false, false, pat(32, 3))),
@@ -191,19 +421,33 @@ const SINGLE_IDS_THOROUGH: &[(u32, u16)] = &[(1, 0), (7, 3), (300, 65535)];
 
 /// documents of family A: every alphabet object alone (at each id of the tier), one alphabet object at a large id
 /// (in memory only), and the document that holds the whole alphabet at sparse ids (with and, for R5/V5, without /ID)
-fn docs_a(h: &Handler, ids: &[(u32, u16)]) -> Vec<DocS> {
+fn docs_a(h: &Handler, ids: &[(u32, u16)], all_layouts: bool) -> Vec<DocS> {
     let al = alphabet(h);
     let mut out = vec![];
     for (k, (label, o)) in al.iter().enumerate() {
         for id in ids {
-            out.push(DocS { label: format!("single:{}@{}.{}", label, id.0, id.1), objects: vec![(*id, o.clone())], has_id: true, slack: (k % 3) as u32, reload: true });
+            out.push(DocS { label: format!("single:{}@{}.{}", label, id.0, id.1), objects: vec![(*id, o.clone())], has_id: true, slack: (k % 3) as u32, reload: true, origin: "built".into() });
         }
     }
-    out.push(DocS { label: "single:lit-33@16777221.1".into(), objects: vec![((16777221, 1), al[6].1.clone())], has_id: true, slack: 0, reload: false });
+    out.push(DocS { label: "single:lit-33@16777221.1".into(), objects: vec![((16777221, 1), al[6].1.clone())], has_id: true, slack: 0, reload: false, origin: "built".into() });
     let full: Vec<((u32, u16), Object)> = al.iter().enumerate().map(|(k, (_, o))| (((2 * k + 1 + (k / 5) * 7) as u32, if k % 4 == 3 { 2 } else { 0 }), o.clone())).collect();
-    out.push(DocS { label: "full".into(), objects: full.clone(), has_id: true, slack: 2, reload: true });
+    out.push(DocS { label: "full".into(), objects: full.clone(), has_id: true, slack: 2, reload: true, origin: "built".into() });
     if !h.legacy() {
-        out.push(DocS { label: "full-no-id".into(), objects: full, has_id: false, slack: 0, reload: true });
+        out.push(DocS { label: "full-no-id".into(), objects: full.clone(), has_id: false, slack: 0, reload: true, origin: "built".into() });
+    }
+    // the provenance dimension: the same objects in a PDF 1.5 file of every layout, loaded with load_mem
+    for layout in LAYOUTS {
+        out.push(DocS { label: format!("file:{}/full", layout), objects: full.clone(), has_id: true, slack: 0, reload: true, origin: format!("file:{}", layout) });
+    }
+    if !h.legacy() {
+        out.push(DocS { label: "file:objstm/full-no-id".into(), objects: full, has_id: false, slack: 0, reload: true, origin: "file:objstm".into() });
+    }
+    // every alphabet object alone at id 7 0 (generation 0: it may live in an object stream)
+    let single_layouts: &[&str] = if all_layouts { LAYOUTS } else { &["objstm"] };
+    for (label, o) in al.iter() {
+        for layout in single_layouts {
+            out.push(DocS { label: format!("file:{}/single:{}@7.0", layout, label), objects: vec![((7, 0), o.clone())], has_id: true, slack: 0, reload: true, origin: format!("file:{}", layout) });
+        }
     }
     out
 }
@@ -214,7 +458,7 @@ fn docs_b(h: &Handler) -> Vec<DocS> {
     let mut out = vec![];
     for (la, a) in &al {
         for (lb, b) in &al {
-            out.push(DocS { label: format!("pair:{}+{}", la, lb), objects: vec![((2, 0), a.clone()), ((9, 1), b.clone())], has_id: true, slack: 0, reload: true });
+            out.push(DocS { label: format!("pair:{}+{}", la, lb), objects: vec![((2, 0), a.clone()), ((9, 1), b.clone())], has_id: true, slack: 0, reload: true, origin: "built".into() });
         }
     }
     out
@@ -472,7 +716,7 @@ fn walk_dict(h: &Handler, a: &Dictionary, b: &Dictionary, ctx: Ctx, path: &str, 
 fn diff_obj(a: &Object, b: &Object, strict: bool, path: &str) -> Option<String> {
     match (a, b) {
         (Object::String(x, fx), Object::String(y, fy)) => {
-            if x != y { return Some(format!("string at {}: expected {} bytes {}, got {} bytes {}", path, x.len(), short_hex(x), y.len(), short_hex(y))); }
+            if x != y { return Some(format!("string at {} was not restored byte for byte: expected {} bytes {}, got {} bytes {}", path, x.len(), short_hex(x), y.len(), short_hex(y))); }
             if strict && fx != fy { return Some(format!("string at {}: format changed", path)); }
             None
         }
@@ -483,7 +727,7 @@ fn diff_obj(a: &Object, b: &Object, strict: bool, path: &str) -> Option<String> 
         (Object::Dictionary(x), Object::Dictionary(y)) => diff_dict(x, y, strict, path, &[]),
         (Object::Stream(x), Object::Stream(y)) => {
             if let Some(d) = diff_dict(&x.dict, &y.dict, strict, path, &[]) { return Some(d); }
-            if x.content != y.content { return Some(format!("stream at {}: expected {} bytes {}, got {} bytes {}", path, x.content.len(), short_hex(&x.content), y.content.len(), short_hex(&y.content))); }
+            if x.content != y.content { return Some(format!("stream at {} was not restored byte for byte: expected {} bytes {}, got {} bytes {}", path, x.content.len(), short_hex(&x.content), y.content.len(), short_hex(&y.content))); }
             None
         }
         (x, y) => {
@@ -508,6 +752,34 @@ fn diff_dict(x: &Dictionary, y: &Dictionary, strict: bool, path: &str, ignore: &
     None
 }
 
+/// "id gen", followed by the /Type of a typed stream or dictionary (so that a report on an object stream, a cross-reference stream or a
+/// Metadata stream says so)
+fn obj_path(id: &(u32, u16), o: &Object) -> String {
+    let d = match o { Object::Stream(s) => Some(&s.dict), Object::Dictionary(d) => Some(d), _ => None };
+    match d.and_then(|d| d.get(b"Type").ok()) {
+        Some(Object::Name(n)) => format!("{} {} (/Type /{})", id.0, id.1, String::from_utf8_lossy(n)),
+        _ => format!("{} {}", id.0, id.1),
+    }
+}
+
+fn inflate(data: &[u8]) -> Option<Vec<u8>> {
+    use std::io::Read;
+    let mut out = vec![];
+    flate2::read::ZlibDecoder::new(data).read_to_end(&mut out).ok().map(|_| out)
+}
+
+/// `o` is an object stream with /Filter /FlateDecode and `r` is the same stream decoded: same dictionary without /Filter (and with the
+/// /Length of the decoded data), content = the inflated content of `o`.  The data is the same, the bytes are not.
+fn is_decoded_objstm(o: &Object, r: &Object) -> bool {
+    match (o, r) {
+        (Object::Stream(a), Object::Stream(b)) => {
+            is_type(&a.dict, b"ObjStm") && matches!(a.dict.get(b"Filter"), Ok(Object::Name(n)) if n.as_slice() == b"FlateDecode") && b.dict.get(b"Filter").is_err()
+                && diff_dict(&a.dict, &b.dict, true, "", &[b"Filter", b"Length"]).is_none() && inflate(&a.content).as_deref() == Some(b.content.as_slice())
+        }
+        _ => false,
+    }
+}
+
 fn short_hex(b: &[u8]) -> String { if b.len() <= 24 { hex(b) } else { format!("{}..", hex(&b[..24])) } }
 
 /// the decrypted document `d` must be the original: no /Encrypt, no encryption dictionary object, all objects and the trailer as before
@@ -519,7 +791,11 @@ fn check_restored(orig: &Document, d: &Document, enc_id: Option<(u32, u16)>, str
         if skip(o) { continue; }
         match d.objects.get(id) {
             None => { push(f, &format!("{}-restores", tag), format!("object {} {} is missing after decrypt", id.0, id.1)); }
-            Some(r) => if let Some(df) = diff_obj(o, r, strict, &format!("{} {}", id.0, id.1)) { push(f, &format!("{}-restores", tag), df); },
+            Some(r) => if let Some(df) = diff_obj(o, r, strict, &obj_path(id, o)) {
+                // one cause, one name (whatever the password class in `tag`): see `is_decoded_objstm`
+                if strict && is_decoded_objstm(o, r) { push(f, "mem-compressed-objstm-restored", format!("the Flate-compressed object stream {} came back from encrypt + decrypt decoded ({} bytes instead of {}, /Filter removed): the same data, but not the stream byte for byte ({})", obj_path(id, o), match r { Object::Stream(x) => x.content.len(), _ => 0 }, match o { Object::Stream(x) => x.content.len(), _ => 0 }, df)); }
+                else { push(f, &format!("{}-restores", tag), df); }
+            },
         }
     }
     for (id, o) in &d.objects {
@@ -653,7 +929,10 @@ fn short(s: &str) -> String { if s.chars().count() > 40 { format!("{}..({} bytes
 fn check_case(c: &Case, state: Option<&EncryptionState>, formats: &[bool]) -> Fails {
     let mut f: Fails = vec![];
     let h = c.h;
-    let orig = build_doc(c.doc);
+    let orig = match build_doc(c.doc) {
+        Ok(d) => d,
+        Err(e) => { push(&mut f, "precondition-file-loads", e); return f; }
+    };
     // 1. the state (document independent for R5/V5, so the caller may pass it in)
     let own;
     let state = match state {
@@ -700,7 +979,7 @@ fn check_case(c: &Case, state: Option<&EncryptionState>, formats: &[bool]) -> Fa
     for (id, o) in &orig.objects {
         match enc.objects.get(id) {
             None => push(&mut f, "non-string-unchanged", format!("object {} {} disappeared in encrypt", id.0, id.1)),
-            Some(e) => walk_enc(h, o, e, Ctx { in_stream_dict: false, in_meta_dict: false }, &format!("{} {}", id.0, id.1), &mut f),
+            Some(e) => walk_enc(h, o, e, Ctx { in_stream_dict: false, in_meta_dict: false }, &obj_path(id, o), &mut f),
         }
     }
     if enc.objects.len() != orig.objects.len() + 1 { push(&mut f, "non-string-unchanged", format!("encrypt changed the number of objects from {} to {}", orig.objects.len(), enc.objects.len())); }
@@ -758,19 +1037,19 @@ fn check_case(c: &Case, state: Option<&EncryptionState>, formats: &[bool]) -> Fa
 #[derive(Clone, Copy, PartialEq)]
 enum DocSel { All, Core, Lit, Pairs }
 
-struct Config { h: Handler, user: String, owner: String, sel: DocSel, ids: &'static [(u32, u16)], both_formats: bool }
+struct Config { h: Handler, user: String, owner: String, sel: DocSel, ids: &'static [(u32, u16)], both_formats: bool, all_layouts: bool }
 
 /// the documents used with every password pair under V5 (whose password hash, ISO algorithm 2.B, costs about a millisecond per evaluation)
-fn is_core(d: &DocS) -> bool { d.label == "full" || d.label == "single:lit-33@7.3" }
+fn is_core(d: &DocS) -> bool { d.label == "full" || d.label == "single:lit-33@7.3" || d.label == "file:objstm/full" }
 
 struct CaseOut { nontrivial: bool, fails: Vec<(String, String, Value)>, sample: String, group: String }
 
 fn run_config(cfg: &Config) -> Vec<CaseOut> {
     let docs: Vec<DocS> = match cfg.sel {
         DocSel::Pairs => docs_b(&cfg.h),
-        DocSel::All => docs_a(&cfg.h, cfg.ids),
-        DocSel::Core => docs_a(&cfg.h, cfg.ids).into_iter().filter(is_core).collect(),
-        DocSel::Lit => docs_a(&cfg.h, cfg.ids).into_iter().filter(|d| d.label == "single:lit-33@7.3").collect(),
+        DocSel::All => docs_a(&cfg.h, cfg.ids, cfg.all_layouts),
+        DocSel::Core => docs_a(&cfg.h, cfg.ids, cfg.all_layouts).into_iter().filter(is_core).collect(),
+        DocSel::Lit => docs_a(&cfg.h, cfg.ids, cfg.all_layouts).into_iter().filter(|d| d.label == "single:lit-33@7.3").collect(),
     };
     // R5/V5 states do not depend on the document: build once (the key-derivation hash is the expensive part)
     let shared = if cfg.h.legacy() { None } else { catch(|| make_state(&cfg.h, &Document::with_version("1.7"), &cfg.user, &cfg.owner)).ok().and_then(|r| r.ok()) };
@@ -816,7 +1095,7 @@ fn configs(thorough: bool) -> Vec<Config> {
                 // thorough: the full cross product except for V5; quick: password dimension on the core documents, document dimension on the anchor configuration
                 let sel = if anchor { DocSel::All } else if thorough { if v5 { DocSel::Core } else { DocSel::All } } else if v5 { DocSel::Lit } else { DocSel::Core };
                 let ids = if thorough && !v5 { SINGLE_IDS_THOROUGH } else { SINGLE_IDS_QUICK };
-                out.push(Config { h, user: u.clone(), owner: o.clone(), sel, ids, both_formats: thorough && !v5 });
+                out.push(Config { h, user: u.clone(), owner: o.clone(), sel, ids, both_formats: thorough && !v5, all_layouts: thorough && u == "user" && o == "owner" });
             }
         }
     }
@@ -831,7 +1110,7 @@ fn configs(thorough: bool) -> Vec<Config> {
             for (u, o) in &bps {
                 let mut h = h0.clone();
                 h.perms = p;
-                out.push(Config { h, user: u.clone(), owner: o.clone(), sel: if v5 { DocSel::Lit } else { DocSel::Core }, ids: SINGLE_IDS_QUICK, both_formats: false });
+                out.push(Config { h, user: u.clone(), owner: o.clone(), sel: if v5 { DocSel::Lit } else { DocSel::Core }, ids: SINGLE_IDS_QUICK, both_formats: false, all_layouts: false });
             }
         }
     }
@@ -842,7 +1121,7 @@ fn configs(thorough: bool) -> Vec<Config> {
             if v5 && !(h0.em && h0.stm == "StdCF" && h0.strf == "StdCF") { continue; }
             let mut h = h0.clone();
             h.perms = PERM_ALL;
-            out.push(Config { h, user: "user".into(), owner: "owner".into(), sel: DocSel::Pairs, ids: SINGLE_IDS_QUICK, both_formats: !v5 });
+            out.push(Config { h, user: "user".into(), owner: "owner".into(), sel: DocSel::Pairs, ids: SINGLE_IDS_QUICK, both_formats: !v5, all_layouts: false });
         }
     }
     out
@@ -858,20 +1137,29 @@ for w in {2 (U+043F), 3 (U+65E5), 4 (U+20000)} (all unchanged by SASLprep), laid
 otherwise inside one), ending with that character (tail 0, 127+w-phase bytes) or 5 characters later (tail 5); plus the 127-byte password of each width (nothing cut off). \
 Quick, 18 pairs: per w the 127-byte pair; per (w, phase) (user tail 0, owner tail 5); per w (user phase 1 tail 0, \"owner\") and (\"user\", owner phase w-1 tail 0). \
 Thorough, 39 pairs: per w the 127-byte pair; per (w, phase) (user tail 0, owner tail 5), (user tail 5, owner tail 0), (user tail 0, \"owner\"), (\"user\", owner tail 0). \
-DOCUMENTS: each object of an alphabet of 25 (V1,V2), 27 (R5,V5) or 29 (V4) objects alone at id 7 3 (thorough, not V5: at each of 1 0, 7 3, 300 65535): empty/5/15/16/17/33-byte literal and hex strings, \
+DOCUMENTS: each object of an alphabet of 30 (V1,V2), 32 (R5,V5) or 34 (V4) objects alone at id 7 3 (thorough, not V5: at each of 1 0, 7 3, 300 65535): empty/5/15/16/17/33-byte literal and hex strings, \
 strings nested in arrays and dictionaries to depth 3 beside names, numbers, null and (dangling) references, empty/5/15/16/300-byte binary streams, Metadata stream (also empty), stream with a string in its dictionary, \
-plain dictionaries of /Type /Metadata (top level and nested), XRef-typed stream, streams with /Filter /Crypt (name and array form) and DecodeParms /Name = each CF name (also with empty content) / missing / unknown / no DecodeParms; \
+plain dictionaries of /Type /Metadata (top level and nested), XRef-typed stream, \
+objects typed as file structure that a loaded document keeps: /Type /ObjStm streams (a well-formed object stream of 2 objects with strings, stored and Flate-compressed; the empty one with /N 0; one with 40 arbitrary bytes and no /N /First) and a dictionary with a /Linearized key holding a string, \
+streams with /Filter /Crypt (name and array form) and DecodeParms /Name = each CF name (also with empty content) / missing / unknown / no DecodeParms; \
 one string at id 16777221 1 (memory only); the document holding the whole alphabet at sparse ids with generations 0 and 2 (R5/V5: also without /ID). \
-QUICK = handlers x permissions (V5: all only) x shared passwords x {33-byte string alone, whole-alphabet document} (V5: string only)  UNION  handlers x {all} x {(user, owner)} x all documents  UNION  \
-{R5, V5 handlers} x permissions (V5: all only) x boundary passwords x {33-byte string alone, whole-alphabet document} (V5: string only). \
-THOROUGH = handlers x permissions x shared passwords x all documents (V5, whose password hash costs ~1.5 ms: x {string alone, whole-alphabet document}, plus {all} x {(user, owner)} x all documents)  UNION  \
-{R5, V5 handlers} x permissions (V5: all only) x boundary passwords x {33-byte string alone, whole-alphabet document} (V5: string only)  UNION  \
-quick-tier handlers (V5: StdCF/StdCF/EncryptMetadata only) x {all} x {(user, owner)} x all ordered pairs of alphabet objects as a two-object document (ids 2 0 and 9 1). \
+PROVENANCE of the document (built = the objects are inserted into a fresh Document; file:<layout> = the harness writes a PDF 1.5 file with its own serializer and the ORIGINAL is what Document::load_mem returns for it, \
+so it keeps the file's object streams and cross-reference stream as objects, compressed entries in reference_table and the cross-reference stream's keys in the trailer; a failed or lossy load is reported as precondition-file-loads): \
+layouts {table (classic cross-reference table), xrefstm (cross-reference stream, W [1 4 2], /Index by runs), objstm (+ every non-stream object of generation 0 in one object stream numbered after the highest id), \
+objstm-flate (that object stream Flate-compressed), objstm-x2 (those objects alternating over two object streams)}. File documents: the whole-alphabet document in each of the 5 layouts (R5/V5: also without /ID in layout objstm), \
+each alphabet object alone at id 7 0 in layout objstm (thorough, password pair (user, owner): in each of the 5 layouts). All other documents are built. \
+QUICK = handlers x permissions (V5: all only) x shared passwords x {33-byte string alone, whole-alphabet document built, whole-alphabet document from file:objstm} (V5: string only)  UNION  handlers x {all} x {(user, owner)} x all documents  UNION  \
+{R5, V5 handlers} x permissions (V5: all only) x boundary passwords x {33-byte string alone, whole-alphabet document built and from file:objstm} (V5: string only). \
+THOROUGH = handlers x permissions x shared passwords x all documents (V5, whose password hash costs ~1.5 ms: x {string alone, whole-alphabet document built and from file:objstm}, plus {all} x {(user, owner)} x all documents)  UNION  \
+{R5, V5 handlers} x permissions (V5: all only) x boundary passwords x {33-byte string alone, whole-alphabet document built and from file:objstm} (V5: string only)  UNION  \
+quick-tier handlers (V5: StdCF/StdCF/EncryptMetadata only) x {all} x {(user, owner)} x all ordered pairs of alphabet objects as a built two-object document (ids 2 0 and 9 1). \
 EACH CASE: EncryptionState::try_from, encrypt, model check of every string/stream ciphertext and of the encryption dictionary, in memory decrypt with the user password, the owner password and 3-7 wrong passwords \
 (a fixed ASCII word, a Cyrillic word, the empty string if neither password is empty, each password with one character appended or, if longer than 20 characters, its first character replaced; \
 R5/V5: also each password of more than 127 bytes whose byte 127 lies inside a character, cut before that character - shorter than the 127 significant bytes, so a different password), \
-save (xref table; whole-alphabet document and thorough except V5: also xref stream) + load_mem + the same decrypts, or the auto-decrypt expectation when the user or owner password is empty. \
-NOT ENUMERATED: ObjStm-typed streams, documents whose max_id is below an existing id, passwords that SASLprep prohibits or changes (where the 127-byte cut falls elsewhere in the prepared form than in the given one), boundary passwords mixing character widths, documents without /ID under V1-V4 (the key derivation needs it), incremental saves";
+save (xref table; built whole-alphabet document and thorough except V5: also xref stream) + load_mem + the same decrypts, or the auto-decrypt expectation when the user or owner password is empty. \
+In memory every object of the original, file-structure objects included, must come back (a Flate-compressed object stream that comes back decoded is reported as mem-compressed-objstm-restored); \
+after save + load the objects typed ObjStm / XRef / Linearized, which no writer carries over, are not compared. \
+NOT ENUMERATED: files with incremental updates, hybrid-reference files, linearized files, object streams with /Extends, files loaded with a filter function, documents already encrypted in the file (their round trip starts with decrypt), documents whose max_id is below an existing id, passwords that SASLprep prohibits or changes (where the 127-byte cut falls elsewhere in the prepared form than in the given one), boundary passwords mixing character widths, documents without /ID under V1-V4 (the key derivation needs it), incremental saves";
 
 pub fn run(thorough: bool) -> Report {
     let mut rep = Report::new(BOUND, true);
